@@ -1040,7 +1040,15 @@ def call(n, st, cx):
         return ("objv", ("res", k), ())
     if HELPERS.match(name) and cx.spec.get("precise"):
         vals = [RV(a, st, cx) for a in args]
-        st.reqs.append("ReqCall \"%s\" [%s]" % (name, "; ".join(arg_text(v) for v in vals)))
+        ev = "ReqCall \"%s\" [%s]" % (name, "; ".join(arg_text(v) for v in vals))
+        at = len(st.reqs)
+        if name.startswith("cbor_mark_") and vals:
+            # the type mark and the payload setters write different fields of the item: a mark is listed
+            # before the setters of the same item that it follows directly (set; mark = mark; set)
+            head = "[%s" % arg_text(vals[0])
+            while at > 0 and st.reqs[at - 1].startswith("ReqCall \"cbor_set_") and st.reqs[at - 1].split("\" ", 1)[1].startswith(head):
+                at -= 1
+        st.reqs.insert(at, ev)
         if vals and vals[0][0] == "ptr":
             keys = set(k for k in list(st.ints) + list(st.ptrs) + list(cx.spec["fields"]) if derives(k[0], vals[0][1]))
             invalidate(st, cx, keys)
@@ -1049,6 +1057,11 @@ def call(n, st, cx):
     rk = "void" if unconst(desugared(n)) == "void" else node_kind_of_type(n, cx)
     if rk == "ptr" and cx.spec.get("precise") and (name != cx.spec["name"] or cx.spec.get("ret") == "ptr") and (listed is not None or CONSTRUCTORS.match(name)):
         # a library constructor / pusher: an event with a NULL-or-not oracle, like an allocator call
+        voc = vocabulary(cx.spec.get("group", "containers"))
+        if listed is None and voc is not None and name not in voc:
+            if thin_wrapper(name, cx):
+                raise Unsupported("call of the wrapper %s inside an expression" % name)
+            raise Unsupported("constructor %s: the plans of this group do not mention it and it is not a thin wrapper" % name)
         vals = [RV(a, st, cx) for a in args]
         k = st.nalloc
         if k >= cx.spec["oracles"]:
@@ -1211,6 +1224,97 @@ def simple_body(body):
     return not has_kind(body, ("IfStmt", "SwitchStmt", "WhileStmt", "DoStmt", "ForStmt", "GotoStmt", "ConditionalOperator#")) \
         and sum(1 for _ in (n for n in all_nodes(body) if n.get("kind") == "ReturnStmt")) <= 1
 
+HAND_PLANS = {"load": "HPlansLoad.v", "ser": "HPlansSer.v", "ref": "HPlansRef.v", "copy": "HPlansCopy.v"}
+_VOCABULARY = {}
+
+def vocabulary(group):
+    """the constructors (cbor_new_* / cbor_build_*) the hand-written plans of the group mention: a call of
+       one of them is an event of the plan.  None: the plan file is not there, every constructor is an event"""
+    if group not in _VOCABULARY:
+        path = os.path.join(os.path.dirname(os.path.abspath(__file__)), "..", "coq", "theories", HAND_PLANS.get(group, "?"))
+        try:
+            _VOCABULARY[group] = set(_re.findall(r'"(cbor_(?:new|build)_[a-z0-9_]+)"', open(path).read()))
+        except OSError:
+            _VOCABULARY[group] = None
+    return _VOCABULARY[group]
+
+def callee_name(n):
+    f = cast.strip(n["inner"][0]) if n.get("kind") == "CallExpr" and n.get("inner") else {}
+    return f["referencedDecl"].get("name") if f.get("kind") == "DeclRefExpr" else None
+
+def thin_wrapper(name, cx):
+    """a constructor of the library that the plans of the group do not mention and whose CURRENT body only
+       calls other constructors and the setters (cbor_build_float2 = cbor_new_float2 + NULL test +
+       cbor_set_float2): it is not an event, it is inlined, so that its callers may use it or spell it out"""
+    if not cx.spec.get("precise") or not CONSTRUCTORS.match(name) or name in LISTED or name == cx.spec["name"]:
+        return None
+    voc = vocabulary(cx.spec.get("group", "containers"))
+    if voc is None or name in voc:
+        return None
+    fn = cx.function(name)
+    if fn is None:
+        return None
+    body = fn[1]
+    if has_kind(body, ("WhileStmt", "ForStmt", "GotoStmt", "SwitchStmt", "MemberExpr", "ArraySubscriptExpr")):
+        return None
+    for n_ in all_nodes(body):
+        k = n_.get("kind")
+        if k == "DoStmt" and not is_macro_do(n_):
+            return None
+        if k == "UnaryOperator" and n_.get("opcode") in ("*", "&", "++", "--"):
+            return None
+        if k == "CallExpr":
+            c = callee_name(n_)
+            if c is None or not (CONSTRUCTORS.match(c) or HELPERS.match(c)):
+                return None
+    return fn
+
+def hoist_wrappers(s, cx):
+    """`f(a, g(b));` / `x = f(a, g(b));` / `return f(a, g(b));` with g a thin wrapper: `T t = g(b);` first"""
+    k = s.get("kind")
+    holder, callnode = None, None
+    if k == "CallExpr":
+        callnode = s
+    elif k == "ReturnStmt" and s.get("inner"):
+        callnode = cast.strip(s["inner"][0])
+    elif k == "BinaryOperator" and s.get("opcode") == "=":
+        callnode = cast.strip(s["inner"][1])
+    elif k == "DeclStmt" and len(s.get("inner", [])) == 1 and s["inner"][0].get("kind") == "VarDecl" and s["inner"][0].get("inner"):
+        callnode = cast.strip(s["inner"][0]["inner"][-1])
+    if callnode is None or callnode.get("kind") != "CallExpr":
+        return None
+    args = callnode["inner"][1:]
+    picks = [i for i, a in enumerate(args) if cast.strip(a).get("kind") == "CallExpr"
+             and callee_name(cast.strip(a)) and thin_wrapper(callee_name(cast.strip(a)), cx)]
+    if not picks:
+        return None
+    for i, a in enumerate(args):
+        if i not in picks and has_kind(a, ("CallExpr", "CompoundAssignOperator")):
+            return None                     # the order of the other calls would change
+        if i not in picks and any(n_.get("kind") == "BinaryOperator" and n_.get("opcode") == "=" or
+                                  n_.get("kind") == "UnaryOperator" and n_.get("opcode") in ("++", "--") for n_ in all_nodes(a)):
+            return None
+    pre, newargs = [], list(args)
+    for i in picks:
+        cx.n += 1
+        g = cast.strip(args[i])
+        did, nm = "hoisted_%d" % cx.n, "hoisted_%d" % cx.n
+        pre.append({"kind": "DeclStmt", "inner": [{"kind": "VarDecl", "id": did, "name": nm, "type": g.get("type"), "inner": [g]}]})
+        newargs[i] = {"kind": "ImplicitCastExpr", "castKind": "LValueToRValue", "type": g.get("type"), "valueCategory": "prvalue",
+                      "inner": [{"kind": "DeclRefExpr", "type": g.get("type"), "valueCategory": "lvalue",
+                                 "referencedDecl": {"id": did, "kind": "VarDecl", "name": nm, "type": g.get("type")}}]}
+    newcall = dict(callnode)
+    newcall["inner"] = [callnode["inner"][0]] + newargs
+    def swap(n):
+        if n is callnode:
+            return newcall
+        if isinstance(n, dict) and "inner" in n:
+            m = dict(n)
+            m["inner"] = [swap(c) for c in n["inner"]]
+            return m
+        return n
+    return pre + [swap(s)]
+
 def inlinable_with_control(name, cx):
     """a helper of the library (typically file-static) that is neither listed nor summarised, whose body
        branches: it is inlined in continuation-passing style at statement level"""
@@ -1218,7 +1322,7 @@ def inlinable_with_control(name, cx):
        or name in ("_cbor_free", "cbor_decref", "memcpy", "__builtin_unreachable") \
        or HELPERS.match(name) or CONSTRUCTORS.match(name) or ENCODERS.match(name) or FLOAT_GETTERS.match(name) \
        or name in cx.spec.get("getters", {}):
-        return None
+        return thin_wrapper(name, cx)
     fn = cx.function(name)
     if fn is None or simple_body(fn[1]):
         return None
@@ -1272,7 +1376,7 @@ def cps_inline(s, rest, st, cx):
     for p_, v in zip(params, vals):
         if v[0] == "int":
             v = ("int", let_int(st, cx, "v_" + str(p_.get("name")), v[1]))
-        elif v[0] not in ("ptr", "eptr", "ptroff"):
+        elif v[0] not in ("ptr", "eptr", "ptroff", "opq", "opqv"):
             raise Unsupported("argument of an inlined call")
         st.env[p_.get("id")] = v
     for n_ in all_nodes(body):
@@ -1298,6 +1402,9 @@ def S(stmts, st, cx):
     if k == "CompoundStmt":
         return S([x for x in s.get("inner", [])] + rest, st, cx)
     if cx.spec.get("precise") and k in ("ReturnStmt", "DeclStmt", "BinaryOperator", "CallExpr"):
+        h = hoist_wrappers(s, cx)
+        if h is not None:
+            return S(h + rest, st, cx)
         r = cps_inline(s, rest, st, cx)
         if r is not None:
             return r
